@@ -485,7 +485,20 @@ func (b *blockBuilder) build(o op) {
 			return
 		}
 		var sid uint64
-		if o.A == 0 {
+		if o.A < 0 {
+			// the oldest open hand-over signing that does not belong to the open transition (left over from an
+			// earlier transition that was dropped while its hand-over was still being signed)
+			for _, id := range open {
+				if s := w.sigs[id]; s.kind == "handover" && (w.m.tr == nil || w.m.tr.signingID != id) {
+					sid = id
+					break
+				}
+			}
+			if sid == 0 {
+				b.inapplicable("sign_stale")
+				return
+			}
+		} else if o.A == 0 {
 			sid = open[len(open)-1]
 			if t := w.m.tr; t != nil && t.status == stWaitingSign && w.sigs[t.signingID] != nil && w.sigs[t.signingID].open {
 				sid = t.signingID
@@ -726,6 +739,12 @@ func (w *world) scan(evs []abci.Event, meta *txMeta, T time.Time, h int64) {
 				if s.paid != nil {
 					for _, a := range s.assigned {
 						w.move(w.moduleAcc, a, s.paid)
+					}
+				}
+				if s.kind == "handover" && (w.m.tr == nil || w.m.tr.signingID != sid) {
+					w.class("stale-handover-signed")
+					if t := w.m.tr; t != nil && t.status == stWaitingSign {
+						w.class("stale-handover-signed-while-WAITING_SIGN")
 					}
 				}
 				if s.kind == "inc" {
